@@ -30,7 +30,7 @@ func init() {
 		Doc: "long streams (two key rotations): the relay delivers records 0..k+499 (or k+999) and then, in place of the next record, replays record k - the record that used the same nonce position one (two) key epochs earlier - for k in {0,1,2,499}, XX and KK, three equal-plaintext / distinct-plaintext layouts",
 	})
 	simrt.Register(&simrt.Scenario{
-		Prop: "C02", Name: "edit-scripts", Count: tiered(12000, 200000),
+		Prop: "C02", Name: "edit-scripts", Count: tiered(12000, 1600000),
 		Run: c02Scripts, MaxOps: 2 << 20, Horizon: time.Hour,
 		Doc: "both directions of an XX/KK session exposed through Machine, NoiseConn or NoiseGrpcConn; random scripts of 1-4 edits (drop, duplicate, swap, replay-earlier, reflect-other-direction, truncate, inject, bit flip, at record boundaries and mid-record offsets) applied to the ciphertext stream; the reader's output must be a prefix of what was written and stay failed after the first error",
 	})
